@@ -510,6 +510,122 @@ func (g *gen) maps() []map[string]string {
 	return ms
 }
 
+
+// parenDepth: maximal nesting of "(" outside quoted strings (has( / all( / global( count too, harmlessly)
+func parenDepth(t string) int {
+	var quote byte
+	d, m := 0, 0
+	for i := 0; i < len(t); i++ {
+		c := t[i]
+		switch {
+		case quote != 0:
+			if c == quote {
+				quote = 0
+			}
+		case c == '"' || c == '\'':
+			quote = c
+		case c == '(':
+			d++
+			if d > m {
+				m = d
+			}
+		case c == ')':
+			d--
+		}
+	}
+	return m
+}
+
+// ---- deep-nesting / long-input boundary stream ---------------------------------------------------------
+// Tiny atoms keep the text small; the shapes are chosen so that String() has to ADD parentheses (every
+// &&/|| group is printed in its own pair), i.e. the canonical text nests deeper than the input.
+
+type bcase struct {
+	text string
+	tag  string
+}
+
+var tinyAtoms = []string{"has(a)", "has(b)", "a==''", "b!='x'", "all()", "!has(a)", "a in{'x'}"}
+
+func rep(s string, n int) string { return strings.Repeat(s, n) }
+
+func boundaryCases() []bcase {
+	var out []bcase
+	add := func(tag, text string) { out = append(out, bcase{text, tag}) }
+	// A: right-nested && around an || core: input depth D, canonical depth D+1
+	for _, d := range []int{15, 16, 17, 30, 31, 32, 33, 34, 40, 63, 64, 65, 66, 100, 200} {
+		add(fmt.Sprintf("deep:and-nest:%d", d), rep("has(a)&&(", d)+"has(a)||has(b)"+rep(")", d))
+	}
+	// B: mixed precedence, "x||y&&(...)": the canonical text has two pairs of parentheses per input level
+	for _, d := range []int{8, 15, 16, 17, 20, 31, 32, 33, 50, 100} {
+		add(fmt.Sprintf("deep:mixed-nest:%d", d), rep("has(a)||has(b)&&(", d)+"has(a)&&has(b)||a==''"+rep(")", d))
+	}
+	// B': left-nested "(...)&&x"
+	for _, d := range []int{16, 31, 32, 33, 65} {
+		add(fmt.Sprintf("deep:left-nest:%d", d), rep("(", d)+"has(a)||has(b)"+rep(")&&has(b)", d))
+	}
+	// C: redundant parentheses only: canonical depth 0
+	for _, d := range []int{15, 31, 32, 33, 40, 64, 100, 200} {
+		add(fmt.Sprintf("deep:parens-only:%d", d), rep("(", d)+"has(a)"+rep(")", d))
+	}
+	// D: nested negations through parentheses, and long runs of "!"
+	for _, d := range []int{5, 16, 31, 32, 33, 66, 100} {
+		add(fmt.Sprintf("deep:not-nest:%d", d), rep("!(", d)+"has(a)"+rep(")", d))
+	}
+	for _, k := range []int{2, 3, 31, 32, 33, 64, 65, 255, 256} {
+		add(fmt.Sprintf("long:bangs:%d", k), rep("!", k)+"has(a)")
+		add(fmt.Sprintf("long:bangs-spaced:%d", k), rep("! ", k)+"(has(a)&&has(b))")
+	}
+	// E: long chains (no nesting in the input; one pair of parentheses per group in the canonical text)
+	for _, n := range []int{50, 128, 300} {
+		add(fmt.Sprintf("long:and-chain:%d", n), "has(a)"+rep("&&has(b)", n-1))
+		add(fmt.Sprintf("long:or-chain:%d", n), "has(a)"+rep("||has(b)", n-1))
+		add(fmt.Sprintf("long:mixed-chain:%d", n), "has(a)"+rep("&&has(b)||has(a)", n/2))
+	}
+	// F: labels and values around the 512-byte label limit; large sets
+	for _, n := range []int{511, 512, 513, 1024} {
+		l := rep("k", n)
+		add(fmt.Sprintf("long:label-has:%d", n), "has("+l+")")
+		add(fmt.Sprintf("long:label-eq:%d", n), l+"=='v'&&(has(a)||has(b))")
+		add(fmt.Sprintf("long:value:%d", n), "a=='"+rep("v", n)+"'||b contains \""+rep("w", n)+"\"")
+	}
+	var set []string
+	for i := 0; i < 120; i++ {
+		set = append(set, fmt.Sprintf("'%c%d'", 'a'+byte(i%3), (i*37)%50))
+	}
+	add("long:set:120", "a in {"+strings.Join(set, ",")+"}&&b not in{"+strings.Join(set[:60], " , ")+",}")
+	return out
+}
+
+// random deep expression: D levels, each wrapping the inner expression with one of several templates
+func deepRandom(r *rng) (string, int) {
+	depths := []int{15, 16, 17, 20, 24, 28, 30, 31, 32, 33, 34, 36, 40}
+	d := depths[r.intn(len(depths))]
+	s := r.pick(tinyAtoms) + []string{"||", "&&"}[r.intn(2)] + r.pick(tinyAtoms)
+	for i := 0; i < d; i++ {
+		a, b := r.pick(tinyAtoms), r.pick(tinyAtoms)
+		switch r.intn(8) {
+		case 0:
+			s = a + "&&(" + s + ")"
+		case 1:
+			s = a + "||(" + s + ")"
+		case 2:
+			s = "(" + s + ")&&" + a
+		case 3:
+			s = "(" + s + ")||" + a
+		case 4:
+			s = a + "||" + b + "&&(" + s + ")"
+		case 5:
+			s = "(" + s + ")&&" + a + "||" + b
+		case 6:
+			s = "!(" + s + ")"
+		default:
+			s = a + " && ( " + s + " ) || " + b
+		}
+	}
+	return s, d
+}
+
 func main() {
 	n := flag.Int("n", 100, "cases")
 	seed := flag.Uint64("seed", 1, "seed")
@@ -531,7 +647,9 @@ func main() {
 		"a = 'b'", "a & b", "has(a", "has()", "all(x)", "a == b", "a == 'b", "!", "a !  = 'b'", "a\n== 'b'", "!!!has(a)", "a in {'x' 'y'}", "a in {,}",
 		"!(!(a == 'b' && !(!has(c))))"}
 
+	boundary := boundaryCases()
 	if *hexIn != "" || len(os.Args) > 1 && os.Args[1] == "-hex" {
+		boundary = nil
 		raw, err := hex.DecodeString(*hexIn)
 		if err != nil {
 			fmt.Fprintln(os.Stderr, "bad -hex:", err)
@@ -552,6 +670,23 @@ func main() {
 			g.used["a"] = []string{"b", "x", "it's"}
 			g.used["c"] = []string{"d"}
 			g.labels = append(g.labels, "a", "c", "e", "has", "in", "not", "contains", "all", "global")
+		} else if i < len(fixed)+len(boundary) {
+			bc := boundary[i-len(fixed)]
+			input = bc.text
+			stream = "boundary"
+			g.tag(bc.tag)
+			g.tag(bc.tag[:strings.LastIndex(bc.tag, ":")])
+			g.used["a"] = []string{"", "x", "a0", "vv"}
+			g.used["b"] = []string{"x", "ww", "b7"}
+			g.labels = append(g.labels, "a", "b")
+		} else if r.chance(8) {
+			var d int
+			input, d = deepRandom(r)
+			stream = "deep-random"
+			g.tag(fmt.Sprintf("deep:random:%d", d))
+			g.used["a"] = []string{"", "x"}
+			g.used["b"] = []string{"x", "y"}
+			g.labels = append(g.labels, "a", "b")
 		} else {
 			input = g.orExpr(0)
 			for len(input) > 400 {
@@ -600,6 +735,12 @@ func main() {
 			if re.accept && vok && uidOK && sameBools(o.evals, re.evals) && re.text == collapseBangs(o.text) && re.text != o.text {
 				tags = append(tags, "not-under-not:known-shape")
 			}
+		}
+		if di, dc := parenDepth(input), parenDepth(o.text); dc > di && dc >= 16 {
+			tags = append(tags, "canonical-deeper-than-input(>=16)")
+		}
+		if o.accept && !re.accept {
+			tags = append(tags, "canonical-text-rejected")
 		}
 		mixed := false
 		for _, e := range o.evals {
